@@ -218,6 +218,18 @@ theorem fitsType_spec {t : Ty} {nb : IR} {v : Int} (h : fitsType t nb = true) (h
     exact (typeBounds_mem_iff ht v).1 (mem_some.2 (by omega))
   · cases h
 
+/-- a returned / passed value accepted by `bcheckAssignment1` is safe to compute and
+lies within the (refined) type it is returned / passed as -/
+theorem checkFits_sound {env : Env} {fs : List Expr} {t : Ty} {e : Expr}
+    (hf : FactsHold env fs) (hv : varsOk env e) (h : checkFits fs t e = true) :
+    safe env false e ∧ inType t (evalI env e) := by
+  unfold checkFits at h
+  split at h
+  · rename_i b hb
+    obtain ⟨h1, h2⟩ := bounds_contain' hf hv hb
+    exact ⟨h1, fitsType_spec h h2⟩
+  · cases h
+
 /-- the facts `lhs >= lo`, `lhs <= hi` recorded after a store are true when the stored
 value lies in `nb` -/
 theorem boundFacts_sound {Γ : Ctx} {env : Env} {fs fs' : List Expr} {lhs : Expr} {nb : IR}
